@@ -30,16 +30,16 @@ func (b *verifBody) VerifAll() ([]byte, error) { return b.data, nil }
 
 type verifBMember struct {
 	raw     json.RawMessage
-	class   int // 0 call, 1 notification, 2 invalid with id, 3 invalid without id
+	class   int // 0 call, 1 notification, 2 invalid with id, 3 invalid without id, 4 request and reply fields mixed (with id)
 	id      json.RawMessage
 	params  json.RawMessage
 	respond bool
 }
 
 func verifBridgeMember(tag string) *verifBMember {
-	m := &verifBMember{class: nondetChoice(tag+".class", 4)}
+	m := &verifBMember{class: nondetChoice(tag+".class", 5)}
 	ver := tokString("2.0")
-	if m.class == 0 || m.class == 2 {
+	if m.class == 0 || m.class == 2 || m.class == 4 {
 		m.id = nondetToken(tag + ".id")
 		k := tokKind(m.id)
 		assume(k == tkNumber || k == tkString)
@@ -60,6 +60,14 @@ func verifBridgeMember(tag string) *verifBMember {
 	case 3:
 		m.raw = tokObject([]string{"jsonrpc", "method"}, []json.RawMessage{tokString("1.0"), tokString("echo")})
 		m.respond = true
+	case 4:
+		// statically invalid: a request that also carries a reply field
+		extra, val := "result", tokLit("5")
+		if nondetBool(tag + ".mixed-error") {
+			extra, val = "error", tokObject([]string{"code", "message"}, []json.RawMessage{tokLit("1"), tokString("x")})
+		}
+		m.raw = tokObject([]string{"jsonrpc", "id", "method", "params", extra}, []json.RawMessage{ver, m.id, tokString("echo"), m.params, val})
+		m.respond = true
 	}
 	return m
 }
@@ -68,7 +76,7 @@ func verifBridgeMember(tag string) *verifBMember {
 func verifCheckBridgeBody(w *verifWriter, ms []*verifBMember) {
 	var exp []*verifBMember
 	for _, m := range ms {
-		if m.class == 2 || m.class == 3 {
+		if m.class == 2 || m.class == 3 || m.class == 4 {
 			exp = append(exp, m) // static errors are emitted first, in order
 		}
 	}
@@ -104,7 +112,7 @@ func verifCheckBridgeBody(w *verifWriter, ms []*verifBMember) {
 		case 0:
 			vassert(tokSame(id, m.id), "C18: each response bears the caller's original id text")
 			vassert(hasRes && !hasErr && tokSame(res, m.params), "C18: ... and is the response to that very call")
-		case 2:
+		case 2, 4:
 			vassert(tokSame(id, m.id) && hasErr, "C18: a statically invalid member is answered with its own error object and id")
 		case 3:
 			vassert(tokKind(id) == tkNull && hasErr, "C18: an unidentifiable invalid member is answered with id null")
